@@ -74,6 +74,22 @@ Theorem C05_no_goroutine_left_behind :
 Proof. exact relay_no_goroutine_left. Qed.
 Print Assumptions C05_no_goroutine_left_behind.
 
+(* always_torn_down for every KIND of connection (closeConn treats *net.TCPConn differently from
+   the rest): whatever the kinds, both connections receive a full Close — the shutdown calls a
+   connection gets are whole closeConn sequences of its kind (TCP: SetLinger, Close; other: Close),
+   so "only one half is shut down" is not something the relay does *)
+Theorem C05_always_torn_down_every_kind :
+  forall ka kb g0 su sd s,
+    let c := run (init_cfg_k ka kb g0 su sd) s in
+    finished c = true ->
+    closedA c = true /\ closedB c = true /\ wg c = O /\ gauge c = g0 /\ main c = MDone /\
+    th_pc (up c) = PDone /\ th_pc (down c) = PDone /\
+    In CClose (opsA c) /\ In CClose (opsB c) /\
+    opsA c = concat (repeat (close_ops ka) (ncloseA c)) /\
+    opsB c = concat (repeat (close_ops kb) (ncloseB c)).
+Proof. exact relay_torn_down_every_kind. Qed.
+Print Assumptions C05_always_torn_down_every_kind.
+
 (* ... no schedule can get stuck before that point ... *)
 Theorem C05_no_deadlock :
   forall g0 su sd s,
